@@ -124,7 +124,18 @@ func propC07(r *kernel.Run) {
 		}
 	}
 	rotate()
-	w := NewWire(r, srv, nil, srv.Opts())
+	// the listener's options may carry clock skews (they widen the validity window of fetch requests): zero or tiny
+	// not-after skews and zero / negative not-before skews are all legal and change nothing for an honest node
+	var skewOpts []nodeenrollment.Option
+	switch tp.Draw(5) {
+	case 0:
+		skewOpts = append(skewOpts, nodeenrollment.WithNotAfterClockSkew(0))
+	case 1:
+		skewOpts = append(skewOpts, nodeenrollment.WithNotAfterClockSkew(time.Duration(tp.Range(1, 1000))), nodeenrollment.WithNotBeforeClockSkew(0))
+	case 2:
+		skewOpts = append(skewOpts, nodeenrollment.WithNotAfterClockSkew(time.Hour), nodeenrollment.WithNotBeforeClockSkew(-time.Minute))
+	}
+	w := NewWire(r, srv, nil, srv.Opts(skewOpts...))
 	w.Net.Frag = tp.Draw(3) == 0
 	w.StartAcceptor("acceptor")
 	nodeW := NewWorld(r, "node", Pick2(tp, "inmem", "file"), tp.Draw(2) == 0, false)
@@ -267,7 +278,7 @@ func propC07(r *kernel.Run) {
 			w.Ln.Close()
 			w.Quiesce()
 			w.Take()
-			w = NewWire(r, srv, nil, srv.Opts())
+			w = NewWire(r, srv, nil, srv.Opts(skewOpts...))
 			w.StartAcceptor("acceptor2")
 			dopts = append(dopts, nodeenrollment.WithRegistrationWrapper(rw))
 		}
